@@ -91,6 +91,7 @@ func init() {
 		Exhaustive: func(string) bool { return true },
 	}
 	items := mon.Kind(p, "items", c13JudgeItems)
+	owned := mon.Kind(p, "caller-owned", c13JudgeOwned)
 	script := mon.Kind(p, "script", c13JudgeScript)
 
 	// sweep judges s and its truncations (every position, or sampled for long scripts)
@@ -157,6 +158,21 @@ func init() {
 					}
 				}
 			}
+		}
+		c.Phase("caller-owned-results") // a caller extends / overwrites what an encoder returned; later encodings must not change
+		for n := uint64(0); n < 400; n++ {
+			if !c.Case(n) {
+				continue
+			}
+			r := c.Rand(n)
+			in := &c13Owned{}
+			for k := 1 + r.Intn(3); k > 0; k-- {
+				in.First = append(in.First, mon.Hex(r.Bytes(prng.Pick(r, []int{1, 2, 20, 32, 33, 37, 40, 75, 76, 255, 256}))))
+			}
+			for l := 1; l <= 80; l++ {
+				in.Then = append(in.Then, mon.Hex(r.Bytes(l)))
+			}
+			owned(c, in)
 		}
 		c.Phase("items-random")
 		nr := 400
@@ -390,6 +406,56 @@ func c13RandScript(r *prng.R, asmOnly bool) []byte {
 }
 
 // ------------------------------------------------------------------ judges
+
+// c13Owned: First are items whose PushDataPrefix / EncodeParts results the
+// caller then extends with append and scribbles over; Then are items encoded
+// afterwards, which must still come out as the reference says.
+type c13Owned struct {
+	First []mon.Hex `json:"first"`
+	Then  []mon.Hex `json:"then"`
+}
+
+func c13JudgeOwned(c *mon.Ctx, in *c13Owned) {
+	c.Eval(1)
+	for _, d := range in.First {
+		var p []byte
+		var err error
+		if !c.Try("bscript.PushDataPrefix", func() { p, err = bscript.PushDataPrefix(d) }) || err != nil {
+			continue
+		}
+		// the documented way of building a push by hand: prefix followed by the data
+		p = append(p, d...)
+		for i := range p {
+			p[i] ^= 0xa5
+		}
+		var e []byte
+		if c.Try("bscript.EncodeParts", func() { e, err = bscript.EncodeParts([][]byte{d}) }) && err == nil {
+			e = append(e, 0xde, 0xad, 0xbe, 0xef)
+			for i := range e {
+				e[i] = 0x5a
+			}
+		}
+	}
+	for _, d := range in.Then {
+		var e []byte
+		var err error
+		if !c.Try("bscript.EncodeParts", func() { e, err = bscript.EncodeParts([][]byte{d}) }) {
+			return
+		}
+		want := refcodec.EncodeItems([][]byte{d})
+		c.Count("owned:encodings-after-caller-append")
+		if err != nil || !bytes.Equal(e, want) {
+			c.Violationf("C13:encode:changed-after-caller-extended-an-earlier-result", "after a caller appended to / overwrote slices returned by PushDataPrefix and EncodeParts, EncodeParts(%d-byte item) = %x (err %v), expected %x", len(d), e[:min(len(e), 12)], err, want[:min(len(want), 12)])
+			return
+		}
+		var parts [][]byte
+		if c.Try("bscript.DecodeParts", func() { parts, err = bscript.DecodeParts(e) }) && (err != nil || len(parts) != 1 || !bytes.Equal(parts[0], d)) {
+			c.Violationf("C13:decode:changed-after-caller-extended-an-earlier-result", "DecodeParts(EncodeParts(item)) no longer returns the item after a caller extended an earlier encoder result")
+			return
+		}
+	}
+	c.Distinct(prng.HashBytes(in.First[0], in.Then[len(in.Then)-1]))
+}
 
 func c13JudgeItems(c *mon.Ctx, in *c13Items) {
 	c.Eval(1)
